@@ -5,6 +5,8 @@ import SaModel.Lemmas.C06NewRoot
 import SaModel.Props.C01Complete
 import SaModel.Props.C01
 import SaModel.Props.C02
+import SaModel.Props.C03Read
+import SaModel.Lemmas.C06Readable
 /-
 C06 — a schema traced from samples accepts those same samples: the chain closed end to end.
 
@@ -16,7 +18,10 @@ C06 — a schema traced from samples accepts those same samples: the chain close
                         (`Props.C01.runRows_complete`), what remains of `to_marrow` is `build_arrays`
   C06_closure_decode    whenever `to_marrow` returns arrays, they decode (Arrow reading rules) column by column to
                         `interpRow` of the samples (`Props.C01.C01_build_decode`)
-  C06_closure_readback_partial  … and `deserialize_any` on the arrays returns those logical values (`Props.C02.read_any_decode`)
+  C06_closure_readback  … and `deserialize_any` on the arrays returns those logical values — NO reader-side hypothesis
+                        (`Props.C03.toMarrow_readAny`: the built arrays satisfy the reader preconditions of C02); for tracing
+                        options without dictionary-encoded strings.  `C06_closure_readback_partial`: all options, with the size
+                        precondition `Read.physical` of the dictionary columns still a hypothesis
 
 Exclusions, each an explicit decidable predicate on (data type of the traced field, sample) — `Lemmas/C06Excl.lean`:
 the three DOCUMENTED ones `nullAtEnum`, `dateLookalike`, `u64AboveI64`; the known finding `dataLessNewtype`; lifted to
@@ -178,50 +183,70 @@ theorem C06_closure_decode (o : Options) (ext : Ext) (h0 : o.overwrites = []) (x
   exact Props.C01.C01_build_decode ext fields xs arrs hside.1 hside.2 hsafe
     (fun x hx => sampleOK_noRaw _ x (hok x hx)) hm
 
-/-- **`C06_closure_readback`**: reading the arrays back with `deserialize_any` reproduces the samples — slot `i` of
+/-- the traced schema is one the reader supports (`Lemmas/C06Readable.lean`) -/
+theorem fromSamples_readable (o : Options) (h0 : o.overwrites = []) {xs : List SVal} {fields : List Field}
+    (h : fromSamples .fixed o xs = .ok fields) : ∀ f ∈ fields, Lemmas.C03.readableF f = true := by
+  obtain ⟨t, n, children, md, ht, hs, _, _⟩ := fromSamples_root h
+  exact to_schema_readable o h0 t (fromSamples_inv ht).wf fields hs
+
+/-- **`C06_closure_readback_partial`**: reading the arrays back with `deserialize_any` reproduces the samples — slot `i` of
 column `j` reads as the `toD` rendering of the logical value the documented mapping gives field `j` of sample `i`
 (`cols` as in `C06_closure_decode`: `interpRow ext fields xs[i]` is the struct of the `i`-th column entries).
-PARTIAL — the reader-side preconditions of `read_any_decode` are hypotheses, not derived for built arrays here: `hrd`
-the reader can be built for the arrays (`new`), `hphys` lengths fit `usize`/`i64` (true of any array in memory), `hutf8`
-the decoded strings are valid UTF-8 (they are `String::as_bytes` of the samples' strings). -/
+Every tracing option.  The reader-side preconditions `Read.new … = ok` and `utf8Ok` of `read_any_decode` are no longer
+hypotheses: they are derived for the built arrays (`Props.C03.toMarrow_readAny_partial`: `wf_new` with
+`fromSamples_readable`, `wf_utf8`) from `C03_wf`, whose input-side hypotheses appear instead — `hext` (`ExtOK`: the external
+chrono parsers return values in range; a theorem for the codec models, `Props.C03.codecExt_ok`) and `hval` (`SValOK`: f32 /
+f64 / integer calls carry values of their width; implied by `SVal.typed`).
+PARTIAL — what remains: `hphys`, the size precondition `Read.physical` (the value count of a dictionary column fits `i64`):
+not derived when strings are dictionary encoded (`string_dictionary_encoding`, `enums_without_data_as_strings`); see
+`C06_closure_readback` for the other options and `Props.C03.wf_not_physical` for why `Spec.WF` alone cannot give it. -/
 theorem C06_closure_readback_partial (o : Options) (ext : Ext) (h0 : o.overwrites = []) (xs : List SVal)
     (fields : List Field) (arrs : List Arr) (h : fromSamples .fixed o xs = .ok fields)
     (hok : ∀ x ∈ xs, SampleOK o x)
     (hsafe : ∀ root0, newRoot fields = .ok root0 → Safe root0)
+    (hext : Lemmas.C03.ExtOK ext)
+    (hval : ∀ x ∈ xs, Lemmas.C03.SValOK x)
     (hm : toMarrow ext fields xs = .ok arrs)
-    (hrd : ∀ a ∈ arrs, Read.new Read.Fixes.all a = .ok ())
-    (hphys : ∀ a ∈ arrs, Read.physical a = true)
-    (hutf8 : ∀ a ∈ arrs, ∀ i lv, decodeAt a i = .ok lv → Read.utf8Ok lv = true) :
+    (hphys : ∀ a ∈ arrs, Read.physical a = true) :
     ∃ cols : List (String × List LVal), cols.length = arrs.length ∧
       (∀ (i : Nat) (hi : i < xs.length),
         interpRow ext fields xs[i] = .ok (.struct (LFields.ofList (cols.map fun c => (c.1, c.2.getD i .null))))) ∧
       ∀ (j : Nat) (hj : j < arrs.length) (i : Nat), i < xs.length →
         ∃ lv, (cols[j]?.map (·.2[i]?)) = some (some lv) ∧
           Read.readAny Read.Fixes.all arrs[j] i = .ok (Read.toD arrs[j] lv) := by
-  obtain ⟨hlen, cols, hc1, hc2, hc3, hc4⟩ := C06_closure_decode o ext h0 xs fields arrs h hok hsafe hm
-  have hcl : cols.length = arrs.length := by
-    have := congrArg List.length hc1; simpa using this.symm
-  refine ⟨cols, hcl, hc4, ?_⟩
-  intro j hj i hi
-  have hjc : j < cols.length := by omega
-  have hcol : decodeAll arrs[j] = cols[j].2.map .ok := by
-    have := congrArg (fun l => l[j]?) hc1
-    simpa [List.getElem?_map, List.getElem?_eq_getElem hj, List.getElem?_eq_getElem hjc] using this
-  have hli : i < cols[j].2.length := by rw [hc3 _ (List.getElem_mem hjc)]; exact hi
-  have hdec : decodeAt arrs[j] i = .ok cols[j].2[i] := by
-    have h1 := Props.C02.decodeAll_eq_decodeAt arrs[j]
-    rw [hcol] at h1
-    have hlen' : (cols[j].2.map (Except.ok (ε := Fail))).length = ((List.range (lenOf arrs[j])).map (decodeAt arrs[j])).length :=
-      congrArg List.length h1
-    simp only [List.length_map, List.length_range] at hlen'
-    have h2 := congrArg (fun l => l[i]?) h1
-    simp only [List.getElem?_map, List.getElem?_eq_getElem hli, Option.map_some] at h2
-    rw [List.getElem?_eq_getElem (by simpa using (by omega : i < lenOf arrs[j]))] at h2
-    simp only [List.getElem_range, Option.map_some, Option.some.injEq] at h2
-    exact h2.symm
-  refine ⟨cols[j].2[i], by simp [List.getElem?_eq_getElem hjc, List.getElem?_eq_getElem hli], ?_⟩
-  exact Props.C02.read_any_decode arrs[j] i _ hdec (hrd _ (List.getElem_mem hj)) (hphys _ (List.getElem_mem hj))
-    (hutf8 _ (List.getElem_mem hj) i _ hdec)
+  obtain ⟨t, n, children, md, ht, hs, _, _⟩ := fromSamples_root h
+  have hside := to_schema_side_of_WF o h0 t (fromSamples_inv ht).wf fields hs
+  have hread := fromSamples_readable o h0 h
+  obtain ⟨_, cols, hcl, _, hc4, hrd⟩ := Props.C03.toMarrow_readAny_partial ext fields xs arrs hside.1 hside.2 hsafe
+    (fun x hx => sampleOK_noRaw _ x (hok x hx)) hext hval (fun f hf => Lemmas.C03.readableDT_of_F (hread f hf)) hphys hm
+  exact ⟨cols, hcl, hc4, hrd⟩
+
+/-- **`C06_closure_readback`**: the same with NO reader-side hypothesis, for tracing options that never dictionary-encode
+strings (`string_dictionary_encoding = false`, `enums_without_data_as_strings = false`): the traced schema then has no
+Dictionary (and never a FixedSizeList) column — `Lemmas.C06.to_schema_physFree` — and `Read.physical` follows from
+`Spec.WF` (`Props.C03.wf_physical_partial`).  Trace ⇒ build ⇒ read back: whenever `to_marrow` with the traced schema returns
+arrays for the collection, `deserialize_any` on slot `i` of column `j` returns the documented value of field `j` of sample
+`i`.  Remaining hypotheses are all on the input side: `hok` (samples are serde values), `hsafe` (C01's `Safe`), `hext`,
+`hval` (C03's `ExtOK`, `SValOK`). -/
+theorem C06_closure_readback (o : Options) (ext : Ext) (h0 : o.overwrites = []) (xs : List SVal)
+    (fields : List Field) (arrs : List Arr) (h : fromSamples .fixed o xs = .ok fields)
+    (hd : o.string_dictionary_encoding = false) (he : o.enums_without_data_as_strings = false)
+    (hok : ∀ x ∈ xs, SampleOK o x)
+    (hsafe : ∀ root0, newRoot fields = .ok root0 → Safe root0)
+    (hext : Lemmas.C03.ExtOK ext)
+    (hval : ∀ x ∈ xs, Lemmas.C03.SValOK x)
+    (hm : toMarrow ext fields xs = .ok arrs) :
+    ∃ cols : List (String × List LVal), cols.length = arrs.length ∧
+      (∀ (i : Nat) (hi : i < xs.length),
+        interpRow ext fields xs[i] = .ok (.struct (LFields.ofList (cols.map fun c => (c.1, c.2.getD i .null))))) ∧
+      ∀ (j : Nat) (hj : j < arrs.length) (i : Nat), i < xs.length →
+        ∃ lv, (cols[j]?.map (·.2[i]?)) = some (some lv) ∧
+          Read.readAny Read.Fixes.all arrs[j] i = .ok (Read.toD arrs[j] lv) := by
+  obtain ⟨t, n, children, md, ht, hs, _, _⟩ := fromSamples_root h
+  have hside := to_schema_side_of_WF o h0 t (fromSamples_inv ht).wf fields hs
+  have hfree := to_schema_physFree o h0 hd he t (fromSamples_inv ht).wf fields hs
+  exact C06_closure_readback_partial o ext h0 xs fields arrs h hok hsafe hext hval hm
+    (Props.C03.toMarrow_physical_partial ext fields xs arrs hside.1 hsafe hext hval hfree hm)
 
 /-! ### non-vacuity and necessity of the exclusions (kernel evaluation) -/
 
@@ -306,5 +331,39 @@ theorem unitStruct_pinned :
       (pushScalar {} (.leaf "$.item" (.int .i32) (some [true]) [1]) (.unitStruct "U")) : R B) =
       .error (.errCtx "serialize_unit_struct is not supported" [("data_type", "Int32"), ("field", "$.item")]) := by
   decide +kernel
+
+/-! ### non-vacuity of the read-back -/
+
+def wRead : List SVal := [recOf [("a", i32 1), ("s", .str "é")], recOf [("a", .none), ("s", .str "")]]
+def wReadFields : List Field := [.mk "a" .int32 true [], .mk "s" .largeUtf8 false []]
+
+set_option maxRecDepth 1000000 in
+theorem wRead_trace : fromSamples .fixed {} wRead = .ok wReadFields := by decide +kernel
+
+set_option maxRecDepth 1000000 in
+theorem wRead_build : (toMarrow {} wReadFields wRead).isOk = true := by decide +kernel
+
+/-- non-vacuity of `C06_closure_readback`: a collection with a null, a two-byte UTF-8 string and an empty string; tracing
+succeeds (`wRead_trace`), `to_marrow` accepts it (`wRead_build`), every hypothesis is discharged — reading the built arrays
+back returns the documented values of the samples, unconditionally -/
+example : ∀ arrs, toMarrow {} wReadFields wRead = .ok arrs →
+    ∃ cols : List (String × List LVal), cols.length = arrs.length ∧
+      (∀ (i : Nat) (hi : i < wRead.length),
+        interpRow {} wReadFields wRead[i] = .ok (.struct (LFields.ofList (cols.map fun c => (c.1, c.2.getD i .null))))) ∧
+      ∀ (j : Nat) (hj : j < arrs.length) (i : Nat), i < wRead.length →
+        ∃ lv, (cols[j]?.map (·.2[i]?)) = some (some lv) ∧
+          Read.readAny Read.Fixes.all arrs[j] i = .ok (Read.toD arrs[j] lv) := by
+  intro arrs hm
+  refine C06_closure_readback {} {} rfl wRead wReadFields arrs wRead_trace rfl rfl ?_ ?_ ?_ ?_ hm
+  · decide
+  · intro root0 h0
+    rw [show newRoot wReadFields = .ok (.struct "$" 0 none
+      (.cons (.leaf "$.a" (.int .i32) (some []) []) ⟨"a", true, []⟩
+        (.cons (.bytes "$.s" .largeUtf8 none [0] []) ⟨"s", false, []⟩ .nil)) [none, none] 0 [false, false]) from by decide] at h0
+    cases h0
+    simp [Safe, SafeL]
+  · constructor <;> (intros; rename_i h; cases h)
+  · simp [wRead, recOf, i32, SFields.ofList, Lemmas.C03.SValOK, Lemmas.C03.SFieldsOK, Lemmas.C03.ScalarOK,
+      IntTy.inRange, IntTy.min, IntTy.max]
 
 end SaModel.Props.C06
